@@ -550,6 +550,7 @@ int main(int argc, char **argv) {
         if (!strcmp(argv[i], "--nofork")) nofork = 1;
         else if (!strcmp(argv[i], "--cpu-limit") && i + 1 < argc) cpu_limit = atol(argv[++i]);
     }
+    if (getenv("VH_PAD")) vp_opt_pad = atoi(getenv("VH_PAD"));       /* plain builds: patterned slack after every allocation */
     if (getenv("VH_FILL")) vp_fill_mode = atoi(getenv("VH_FILL"));   /* default fill of fresh allocations (-1: leave as is) */
     size_t len;
     char *all = slurp(argv[1], &len);
